@@ -144,6 +144,13 @@ def returned_consts(M, fl, ret):
 
 
 def run(rep, ctx):
+    try:
+        _run(rep, ctx)
+    finally:
+        pass
+
+
+def _run(rep, ctx):
     M = ctx.model
     fn = M.func(FQ)
     fl = Flow(fn)
@@ -156,6 +163,10 @@ def run(rep, ctx):
     rep.rule("R15.2", "False is returned iff some rotation is improper; the scan ranges over all rotations")
     rep.rule("R15.3", "the rotations are those of the symmetry dataset that also gives the space-group number")
 
+    has_scan = any(isinstance(n, (ast.For, ast.While, ast.GeneratorExp, ast.ListComp)) for n in ast.walk(fn))
+    if not has_scan:
+        table_mode(rep, ctx, M, fn)
+        return
     loops = [n for n in fn.body if isinstance(n, ast.For)] + \
             [n for s in fn.body if isinstance(s, (ast.If, ast.With, ast.Try)) for n in ast.walk(s) if isinstance(n, ast.For)]
     comps = [n for n in ast.walk(fn) if isinstance(n, ast.Call) and isinstance(n.func, ast.Name)
@@ -186,6 +197,18 @@ def run(rep, ctx):
                 if isinstance(s, ast.Assign) and isinstance(s.value, ast.Constant):
                     other.add(s.value.value)
             verdicts.append((c, t, fire, other))
+        # a flag assigned from the test itself inside the loop, not combined with its previous value: only the last rotation decides
+        for a in ast.walk(loop):
+            if isinstance(a, ast.Assign) and len(a.targets) == 1 and isinstance(a.targets[0], ast.Name):
+                c = classify(M, fl, a.value, fl.node_of(a)) if isinstance(a.value, (ast.Compare, ast.Call, ast.UnaryOp)) else None
+                if c is not None and not any(isinstance(x, ast.Name) and x.id == a.targets[0].id for x in ast.walk(a.value)):
+                    rets_flag = [r for r in ast.walk(fn) if isinstance(r, ast.Return) and r.value is not None
+                                 and any(isinstance(x, ast.Name) and x.id == a.targets[0].id for x in ast.walk(r.value))]
+                    if rets_flag:
+                        rep.violation("R15.2", f"get_is_chiral: `{norm(a)}` inside the scan", "the result flag is overwritten by every rotation instead of "
+                                      "being accumulated (no early return, no `and`): only the last operation in spglib's list decides, so groups whose "
+                                      "last listed operation is proper (P-4m2, P-62m, ...) are reported chiral", M.where(FQ, a))
+                        verdicts.append(None)
         # default: returns after the loop
         after = [s for s in fn.body[fn.body.index(loop) + 1:] if isinstance(s, ast.Return)] if loop in fn.body else []
         default = set()
@@ -232,6 +255,9 @@ def run(rep, ctx):
     else:
         raise AnalysisError("get_is_chiral: neither a loop over the rotations nor an any()/all() comprehension found")
 
+    if verdicts and all(v is None for v in verdicts):
+        return
+    verdicts = [v for v in verdicts if v is not None]
     if not verdicts:
         raise AnalysisError("get_is_chiral: no determinant test recognised in the scan over the rotations")
     # where do the matrices come from? The rotations in spglib's Hall database are 7388 fixed integer matrices in standard
@@ -343,6 +369,52 @@ def run(rep, ctx):
     rep.floor("R15.1", 1)
     rep.floor("R15.2", 2)
     rep.floor("R15.3", 2)
+
+
+def table_mode(rep, ctx, M, fn):
+    """get_is_chiral decides from the space-group number / point-group label: fold the predicate for all 230 groups"""
+    from .. import spgref
+    from ..constfold import Folder
+    T = ctx.tables
+    SGI = T["SPACE_GROUP_INFO"]
+
+    def hook(e, env, folder):
+        if isinstance(e, ast.Call) and isinstance(e.func, ast.Attribute) and isinstance(e.func.value, ast.Name) and e.func.value.id == "self" and not e.args:
+            g = env["__g"]
+            if e.func.attr == "get_space_group_number":
+                return g
+            if e.func.attr == "get_point_group":
+                return spgref.sgtype(g).pointgroup_international
+            if e.func.attr == "get_crystal_system":
+                return SGI[g]["crystal_system"]
+            if e.func.attr == "get_hall_number":
+                return spgref.hall_of()[g]
+        if isinstance(e, ast.Name) and e.id == "SPACE_GROUP_INFO":
+            return SGI
+        if isinstance(e, ast.Attribute) and isinstance(e.value, ast.Name) and e.value.id == "constants":
+            raise AnalysisError("constants.* in the chirality predicate not modelled")
+        return NotImplemented
+    F = Folder({"matid": hook}, "get_is_chiral")
+    body = [s2 for s2 in fn.body if not (isinstance(s2, ast.Expr) and isinstance(s2.value, ast.Constant))]
+    soh = spgref.sohncke()
+    wrong = []
+    for g in range(1, 231):
+        got = F.run(body, {"__g": g})
+        if bool(got) != (g in soh):
+            wrong.append((g, spgref.sgtype(g).pointgroup_international, got))
+    rep.count("groups_folded", 230)
+    if wrong:
+        rep.violation("R15.2", "get_is_chiral: predicate over the detected group", f"folded for all 230 space groups the predicate is wrong for "
+                      f"{len(wrong)} of them, e.g. " + ", ".join(f"group {g} (point group {pg}) -> {v}" for g, pg, v in wrong[:6])
+                      + "; chiral means: one of the 65 Sohncke groups (no improper operation)", M.where(FQ))
+    else:
+        for g in range(1, 231):
+            rep.ok("R15.2", f"group {g}: predicate = {g in soh}")
+        rep.ok("R15.1", "decision from exact group labels: no floating-point comparison involved")
+        rep.ok("R15.3", "decision from the detected space-group number (independent of the input cell's operations)")
+    from .. import symrules as _SR
+    rep.rule("R15.4", "every memoised result of the analyzer is dropped by reset(), which set_system() calls (no answers for a previous structure)")
+    _SR.reset_covers_caches(rep, M, "R15.4")
 
 
 def classify_comp(M, fl, gen, at):
